@@ -338,6 +338,24 @@ def main(check, argv=None):
             harness_errors.append(f"seed {e['seed']}: {e['trace']}")
     search_wall = time.monotonic() - t0
 
+    # regression corpus: minimised failing histories of defects that were repaired; each is replayed on every run so
+    # that a defect that returns is reported at once instead of waiting for the search to find it again
+    reg_dir = os.path.join(VERIF, "regression", prop)
+    reg_run = 0
+    reg_viols = []
+    if os.path.isdir(reg_dir):
+        for fn in sorted(os.listdir(reg_dir)):
+            if not fn.endswith(".json"):
+                continue
+            try:
+                rep = json.load(open(os.path.join(reg_dir, fn)))
+                rout = check.execute(rep["scenario"], rep["seed"], rep.get("decisions"))
+                reg_run += 1
+                for v in rout.violations:
+                    reg_viols.append((fn, rep, rout, v))
+            except Exception:
+                harness_errors.append(f"regression {fn}: {traceback.format_exc()[-1500:]}")
+
     known = load_known(prop)
     known_hits = {}
     new_by_clause = {}
@@ -388,6 +406,17 @@ def main(check, argv=None):
         except Exception:
             harness_errors.append(f"shrink/replay failed for {clause} seed {seed}: {traceback.format_exc()[-2000:]}")
 
+    seen_reg = set()
+    for fn, rep, rout, v in reg_viols:
+        if match_known(v, known) is not None or (fn, v.clause) in seen_reg:
+            continue
+        seen_reg.add((fn, v.clause))
+        path = write_replay(check, rep["scenario"], rep["seed"], v, rout, rep.get("decisions") or {}, 0)
+        print(f"  {v.clause}: {v.detail} [regression corpus: {fn}, {rep.get('defect', '')}]")
+        print(f"VIOLATION property={prop} replay={path}")
+        replay_paths.append(path)
+        exit_code = 1
+
     wall = time.monotonic() - t0
     ev = total["evaluations"]
     if ev == 0:
@@ -409,6 +438,7 @@ def main(check, argv=None):
         "determinism_selftest": {"seeds_rerun_in_two_other_processes": len(dres[0]) if dres else 0, "identical": det_ok,
                                  "PYTHONHASHSEED": HASHSEED},
         "workers": jobs,
+        "regression_histories_replayed": reg_run,
         "components_real": _components()[0],
         "components_stub": _components()[1],
         "replays": replay_paths,
@@ -417,7 +447,7 @@ def main(check, argv=None):
     evidence = {
         "property_id": prop, "tier": a.tier, "seed": a.seed, "level": getattr(check, "LEVEL", "exploration"),
         "coverage": cov, "assumptions": getattr(check, "ASSUMPTIONS", []), "wall_s": round(wall, 2),
-        "violations": len(new_by_clause),
+        "violations": len(new_by_clause) + len(seen_reg),
     }
     if harness_errors:
         evidence["coverage"]["harness_errors"] = harness_errors[:10]
